@@ -5,5 +5,5 @@ DocMode = TRUE
 Vocab <- VocabDoc
 TextKinds <- TK3
 OptSets <- Opts4
-INVARIANTS BuilderSound DesignRefines
+INVARIANTS BuilderSound DesignRefines Emit
 CHECK_DEADLOCK FALSE
